@@ -134,6 +134,13 @@ impl InputList {
         loop {
             let ev = reader.read_event_into(&mut buf);
             let event_lines = if let Ok(ok_ev) = ev.clone() {
+                // Everything downstream assumes UTF-8; reject anything else up front.
+                let ev_bytes: &[u8] = &ok_ev;
+                if std::str::from_utf8(ev_bytes).is_err() {
+                    return Err(SvgdxError::ParseError(format!(
+                        "Invalid UTF-8 near line {src_line}"
+                    )));
+                }
                 ok_ev.as_ref().iter().filter(|&c| *c == b'\n').count()
             } else {
                 0
